@@ -3,7 +3,7 @@ repo).  Labelled bounded in the evidence and never counted as proved."""
 import os, subprocess, time, re
 
 
-def build_tool(repo, verif, name):
+def build_tool(repo, verif, name, release=False):
     """copies tools/<name> into .gen/<name>/crate with its /repo/ path deps pointed at `repo`, builds it
     into the shared .cache/target and returns the binary path"""
     tool = os.path.join(verif, 'tools', name)
@@ -16,10 +16,10 @@ def build_tool(repo, verif, name):
     env = dict(os.environ)
     env['CARGO_TARGET_DIR'] = os.path.join(verif, '.cache', 'target')
     env['CARGO_NET_OFFLINE'] = 'true'
-    p = subprocess.run(['cargo', 'build', '--offline', '--quiet'], cwd=crate, env=env, stdout=subprocess.PIPE, stderr=subprocess.STDOUT, text=True)
+    p = subprocess.run(['cargo', 'build', '--offline', '--quiet'] + (['--release'] if release else []), cwd=crate, env=env, stdout=subprocess.PIPE, stderr=subprocess.STDOUT, text=True)
     if p.returncode != 0:
         return None, p.stdout[-800:]
-    return os.path.join(env['CARGO_TARGET_DIR'], 'debug', name), ''
+    return os.path.join(env['CARGO_TARGET_DIR'], 'release' if release else 'debug', name), ''
 
 
 def check_libpath(prop, tier, repo, verif):
@@ -227,7 +227,7 @@ def check_hints(prop, tier, repo, verif):
     mh = 65 if tier == 'thorough' else 34
     res = {'unit': 'bounded:hint_soundness', 'engine': 'bounded run of the real processor with a DISHONEST host (tools/hintprobe)', 'status': 'ok',
            'failures': [], 'undecided': [], 'bounded': True,
-           'bound': 'u32clz/ctz/clo/cto (~120 operands x hints 0..%d, 2^32, 2^32+5, p-31, p-1), ilog2 (~75 operands x hints 0..64), u64 div/mod/divmod (8 operand pairs x 12 wrong (q, r) families), ext2inv (4 operands x 3 wrong inverses), mtree_get (path shorter than the depth); a completed run must leave the correct result' % mh}
+           'bound': 'u32clz/ctz/clo/cto (~120 operands x hints 0..%d, 2^32, 2^32+5, p-31, p-1), ilog2 (~75 operands x hints 0..64), u64 div/mod/divmod (8 operand pairs x 12 wrong (q, r) families), ext2inv (4 operands x 3 wrong inverses), ext2div (5 operand pairs x 10 wrong inverses of the divisor incl. inverses scaled by (1 - t, t)), mtree_get (path shorter than the depth); a completed run must leave the correct result' % mh}
     binp, err = build_tool(repo, verif, 'hintprobe')
     if binp is None:
         res['status'] = 'undecided'
@@ -431,4 +431,167 @@ def check_hash_invariance(prop, tier, repo, verif):
         res['status'] = 'undecided'
     res['wall_s'] = round(time.time() - t0, 1)
     res['checker_cmd'] = 'tools/hashprobe (built against the current tree): %s checks' % m.group(1)
+    return res
+
+
+def check_ast_decode_edge(prop, tier, repo, verif):
+    """hand-picked hostile encodings for the AST decoders, each decoded in its own process (an abort cannot be caught)"""
+    t0 = time.time()
+    res = {'unit': 'bounded:ast_decode_edge', 'engine': 'bounded run of the real AST decoders, one process per input (tools/serdeprobe)', 'status': 'ok',
+           'failures': [], 'undecided': [], 'bounded': True,
+           'bound': 'ProgramAst::from_bytes on while-nesting of depth 1, 300 and 20000, on every single byte 0x00..0xff in instruction position, on 12 truncations of a valid program; Instruction::read_from on every single byte; required: exit without panic / abort, accepted values re-encode to an equal value'}
+    binp, err = build_tool(repo, verif, 'serdeprobe')
+    if binp is None:
+        res['status'] = 'undecided'
+        res['undecided'].append('serdeprobe does not build against the current tree: ' + err)
+        return res
+    work = os.path.join(verif, '.gen', 'serdeprobe')
+    cases = []
+    for depth in (1, 300, 20000):
+        cases.append(('program', 'while-nesting-depth-%d' % depth, '0000000100' + 'ff0100' * depth + 'ff0000'))
+    for b in range(256):
+        cases.append(('program', 'instruction-position-byte', '0000000100%02x' % b))
+        cases.append(('instr', 'single-opcode-byte', '%02x' % b))
+    valid = '0000000300' + '03' + 'ff0200' + '03' + '09' + 'fe05000000010003'   # add; while(add, sub?); repeat.5(add)
+    for cut in range(1, 13):
+        cases.append(('program', 'truncation', valid[:2 * cut]))
+    n = 0
+    seen = set()
+    for mode, label, hx in cases:
+        n += 1
+        arg = hx
+        if len(hx) > 4000:
+            fn = os.path.join(work, 'case_%s.hex' % label)
+            open(fn, 'w').write(hx)
+            arg = '@' + fn
+        try:
+            p = subprocess.run([binp, mode, arg], stdout=subprocess.PIPE, stderr=subprocess.PIPE, text=True, timeout=120)
+            rc, out = p.returncode, p.stdout.strip()
+        except subprocess.TimeoutExpired:
+            rc, out = -999, 'TIMEOUT'
+        kind = None
+        if rc < 0 or rc in (134, 139):
+            kind = 'abort'
+        elif out.startswith('PANIC'):
+            kind = 'panic'
+        elif out.startswith('ROUNDTRIP-MISMATCH'):
+            kind = 'reencode-mismatch'
+        if kind and (kind, label) not in seen:
+            seen.add((kind, label))
+            res['failures'].append({'obligation': '%s/bounded/ast_decode_edge#%s:%s' % (prop, kind, label), 'message': 'AST decoder %s on %s' % (kind, label),
+                                    'rendered': ('%s %s -> rc=%s %s' % (mode, hx[:80] + ('...' if len(hx) > 80 else ''), rc, out[:300])),
+                                    'origins': ['assembly/src/ast/nodes/serde/deserialization.rs', 'assembly/src/ast/program.rs', 'assembly/src/ast/code_body.rs'],
+                                    'failing_input': {'decoder': mode, 'hex': hx if len(hx) <= 200 else "'0000000100' + 'ff0100' * %d + 'ff0000'" % ((len(hx) - 16) // 6), 'cmd': '.cache/target/debug/serdeprobe %s <hex>' % mode}})
+    if res['failures']:
+        res['status'] = 'fail'
+    res['wall_s'] = round(time.time() - t0, 1)
+    res['checker_cmd'] = 'tools/serdeprobe (built against the current tree): %d inputs, one process each' % n
+    return res
+
+
+def check_decoder_mutations(prop, tier, repo, verif):
+    t0 = time.time()
+    nrand = 300000 if tier == 'thorough' else 30000
+    res = {'unit': 'bounded:decoder_mutations', 'engine': 'bounded run of the real decoders under catch_unwind (tools/decodeprobe, release build with debug assertions and overflow checks)', 'status': 'ok',
+           'failures': [], 'undecided': [], 'bounded': True,
+           'bound': '60 valid encodings (ProgramAst / ModuleAst shapes with and without imports and source locations, ProcedureAst, Node, ModuleImports, LibraryPath, names, 4 MaslLibraries incl. the stdlib, Kernel, ProgramInfo, StackInputs, StackOutputs) x every byte set to 0x00 / 0xff / +1 / -1 (long encodings: first / last 300 offsets and the length fields), every truncation, insertions / deletions / appended bytes, + %d pseudo-random strings of 0..48 bytes to each of 16 decoders; every accepted value is re-encoded, re-decoded and compared; p-1 / p / p+1 / 2^64-1 in every position of the integer constructors. Proof decoding is covered by proof_bytes' % nrand}
+    binp, err = build_tool(repo, verif, 'decodeprobe', release=True)
+    if binp is None:
+        res['status'] = 'undecided'
+        res['undecided'].append('decodeprobe does not build against the current tree: ' + err)
+        return res
+    env = dict(os.environ)
+    env['VERIF_REPO'] = repo.rstrip('/')
+    p = subprocess.run([binp, '--no-proof', '--no-hazards', '--random', str(nrand)], stdout=subprocess.PIPE, stderr=subprocess.PIPE, text=True, env=env)
+    m = re.search(r'SUMMARY samples=(\d+) decoder_calls=(\d+) failures=(\d+) constructor_failures=(\d+)', p.stdout)
+    if not m:
+        res['status'] = 'undecided'
+        res['undecided'].append('decodeprobe gave no summary: ' + (p.stdout + p.stderr)[-500:])
+        return res
+    for ln in p.stdout.split('\n'):
+        mm = re.match(r'FAIL decoder=(\w+) count=(\d+) :: (.*?) :: shortest=(.*)', ln)
+        if not mm:
+            continue
+        dec, cnt, key, hx = mm.groups()
+        slug = re.sub(r'[^a-z0-9]+', '-', key.lower()).strip('-')[:70]
+        res['failures'].append({'obligation': '%s/bounded/decoder_mutations#%s:%s' % (prop, dec, slug), 'message': '%s: %s (%s inputs)' % (dec, key[:200], cnt),
+                                'rendered': ln[:1500], 'origins': ['assembly/src/ast', 'assembly/src/library', 'core/src/stack', 'core/src/program'],
+                                'failing_input': {'decoder': dec, 'shortest_bytes_hex': hx[:1200], 'detail': key[:300], 'cmd': '.cache/target/release/decodeprobe --one %s <hex>' % dec}})
+    if res['failures']:
+        res['status'] = 'fail'
+    res['wall_s'] = round(time.time() - t0, 1)
+    res['checker_cmd'] = 'tools/decodeprobe --no-proof --no-hazards --random %d (built against the current tree): %s decoder calls on %s valid encodings' % (nrand, m.group(2), m.group(1))
+    return res
+
+
+def check_immediate_forms(prop, tier, repo, verif):
+    """immediate / constant parsing (assembly/src/ast/parsers): outside both verifiers, so a bounded table"""
+    t0 = time.time()
+    P = 2 ** 64 - 2 ** 32 + 1
+    res = {'unit': 'bounded:immediate_forms', 'engine': 'bounded run of the real parser + assembler + processor (tools/runmasm), one process per source', 'status': 'ok',
+           'failures': [], 'undecided': [], 'bounded': True,
+           'bound': 'about 60 sources: push in decimal / short big-endian hex / long little-endian hex word at 0, 1, 2^32-1, 2^32, p-1 (accepted) and p, 2^64-1, odd digit counts, 17 values (rejected); value lists in documented order; constants incl. + - * / // ( ) expressions; decimal immediates of add / sub / mul / div / eq / exp at p-1, p and 0; expected values computed from docs/src/user_docs/assembly/io_operations.md and code_organization.md'}
+    binp, err = build_tool(repo, verif, 'runmasm')
+    if binp is None:
+        res['status'] = 'undecided'
+        res['undecided'].append('runmasm does not build against the current tree: ' + err)
+        return res
+    inv2 = pow(2, P - 2, P)
+    le = lambda v: ''.join('%02x' % ((v >> (8 * i)) & 0xff) for i in range(8))
+    cases = [
+        ('push.0', [0]), ('push.1', [1]), ('push.4294967295', [2 ** 32 - 1]), ('push.4294967296', [2 ** 32]), ('push.%d' % (P - 1), [P - 1]),
+        ('push.%d' % P, None), ('push.%d' % (2 ** 64 - 1), None), ('push.%d' % (2 ** 64), None),
+        ('push.0x00', [0]), ('push.0x7b', [123]), ('push.0x0100', [256]), ('push.0xffffffff', [2 ** 32 - 1]), ('push.0x0100000000', [2 ** 32]),
+        ('push.0xffffffff00000000', [P - 1]), ('push.0xffffffff00000001', None), ('push.0xffffffffffffffff', None), ('push.0x1', None), ('push.0x123', None),
+        ('push.0x', None), ('push.0xzz', None),
+        ('push.0x00001234.0x00005678.0x00009012.0x0000abcd', [0xabcd, 0x9012, 0x5678, 0x1234]),
+        ('push.0x341200000000000078560000000000001290000000000000cdab000000000000', [0xabcd, 0x9012, 0x5678, 0x1234]),
+        ('push.0x' + le(1) + le(2 ** 32) + le(P - 1) + le(0), [0, P - 1, 2 ** 32, 1]),
+        ('push.0x' + le(1) + le(2) + le(P) + le(0), None),
+        ('push.0x' + le(1) + le(2) + le(3), None),
+        ('push.1.2.3', [3, 2, 1]), ('push.0x0a.11', [11, 10]),
+        ('push.' + '.'.join(str(i) for i in range(1, 17)), list(range(16, 0, -1))),
+        ('push.' + '.'.join(str(i) for i in range(1, 18)), None),
+        ('push.1.%d' % P, None),
+    ]
+    consts = [
+        ('const.A=7', 'push.A', [7]), ('const.A=0x10', 'push.A', [16]), ('const.A=%d' % (P - 1), 'push.A', [P - 1]), ('const.A=%d' % P, 'push.A', None),
+        ('const.A=7 const.B=A*3+1', 'push.B', [22]), ('const.A=7 const.B=A//2', 'push.B', [3]), ('const.A=7 const.B=A/2', 'push.B', [7 * inv2 % P]),
+        ('const.A=8 const.B=A/2', 'push.B', [4]), ('const.A=7 const.B=(A+1)*(A-2)', 'push.B', [40]), ('const.A=2 const.B=10-A*3', 'push.B', [4]),
+        ('const.A=2 const.B=A+A*A', 'push.B', [6]), ('const.A=9 const.B=A//2//2', 'push.B', [2]), ('const.A=5', 'push.A.A', [5, 5]),
+    ]
+    srcs = [('begin %s end' % c, c, exp) for c, exp in cases] + [('%s begin %s end' % (h, b), h + ' ' + b, exp) for h, b, exp in consts]
+    # decimal immediates of the arithmetic / comparison instructions at the field boundaries
+    srcs += [('begin push.5 add.%d end' % (P - 1), 'add.p-1', [4]), ('begin push.5 add.%d end' % P, 'add.p', None), ('begin push.5 mul.%d end' % (P - 1), 'mul.p-1', [P - 5]),
+             ('begin push.5 sub.%d end' % (P - 1), 'sub.p-1', [6]), ('begin push.%d eq.%d end' % (P - 1, P - 1), 'eq.p-1', [1]), ('begin push.6 div.2 end', 'div.2', [3]),
+             ('begin push.5 div.0 end', 'div.0', None), ('begin push.3 exp.%d end' % (2 ** 64 - 2 ** 32), 'exp.p-1', [1])]
+    n = 0
+    for src, label, exp in srcs:
+        n += 1
+        p = subprocess.run([binp, src], stdout=subprocess.PIPE, stderr=subprocess.PIPE, text=True)
+        out = p.stdout.strip().split('\n')[-1] if p.stdout.strip() else ''
+        bad = None
+        if out.startswith('PANIC') or p.returncode < 0 or p.returncode in (101, 134):
+            bad = 'panic'
+        elif exp is None:
+            if not out.startswith('ASMERR'):
+                bad = 'accepted-invalid'
+        else:
+            m = re.match(r'OK \[(.*)\]', out)
+            if not m:
+                bad = 'rejected-valid'
+            else:
+                got = [int(x) for x in m.group(1).split(',')]
+                if got[:len(exp)] != exp or any(x != 0 for x in got[len(exp):]):
+                    bad = 'wrong-value'
+        if bad:
+            slug = re.sub(r'[^a-zA-Z0-9.]+', '-', label)[:60]
+            res['failures'].append({'obligation': '%s/bounded/immediate_forms#%s:%s' % (prop, bad, slug), 'message': 'immediate parsing: %s for `%s`' % (bad, label[:100]),
+                                    'rendered': '%s -> %s (expected %s)' % (src[:300], out[:200], 'an assembly error' if exp is None else exp),
+                                    'origins': ['assembly/src/ast/parsers', 'assembly/src/ast/parsers/constants.rs'],
+                                    'failing_input': {'source': src[:600], 'expected': 'assembly error' if exp is None else exp, 'got': out[:200], 'cmd': ".cache/target/debug/runmasm '<source>'"}})
+    if res['failures']:
+        res['status'] = 'fail'
+    res['wall_s'] = round(time.time() - t0, 1)
+    res['checker_cmd'] = 'tools/runmasm (built against the current tree): %d sources' % n
     return res
